@@ -322,10 +322,10 @@ def coupling_harness(cname, mask, shape4d, mode, props, hidden=None, with_contex
 def coupling_harnesses(props, tier, modes=("forward", "inverse")):
     hs = []
     for cname in CLASSES:
-        Ds = (2, 3) if tier == "quick" else (2, 3, 4)
+        Ds = (2, 3)
         for D in Ds:
             ms = masks_for(D, tier)
-            if tier == "quick" and cname not in ("Affine", "PwRQTails"):
+            if (tier == "quick" and cname not in ("Affine", "PwRQTails")) or (tier != "quick" and cname in ("AffineGeneral", "PwLinearTails", "PwQuadraticTails") and D == 3):
                 ms = ms[:1] + ms[-1:] if D == 3 else ms[:1]
             for mask in ms:
                 for shape4d in (False, True):
